@@ -319,7 +319,9 @@ TEXT = {
   "design_ref": "§3 C13",
   "note": "Hash function is a parameter; T2 (stored bytes are a function of covered fields and state) is not a theorem: it is "
           "decided on real nodes by the `variants` stream (every alteration of every field the hash does not cover, for user "
-          "blocks, contract blocks and momentums, delivered to a follower before the honest data; whatever is accepted must be "
+          "blocks, contract blocks and momentums, delivered to a follower before the honest data - generated contract blocks also by "
+          "gossip with their empty key fields filled - and AFTER the follower verified the original and lost it in a reorganisation; "
+          "whatever is accepted must be "
           "stored with the original's bytes; known finding F9 for ChangesHash); typed RLP decoding and JSON object structure are covered by "
           "Go-side round-trip monitors, T4 by an AST fact plus monitors (no Lean model of the ABI): ValidateSendBlock of every "
           "method directly, and owner-signed send blocks with non-canonical call data delivered end to end to real nodes "
@@ -331,7 +333,9 @@ TEXT = {
           "with the primitives as parameters: isValidPath accepts exactly m(/<decimal below 2^32>')+, every HMAC step uses "
           "an index in [2^31,2^32), DeriveForPath succeeds iff all segments are below 2^31 (DeriveWithIndex iff i < 2^31), "
           "step input = 0x00||key||be32(i) injective, Decrypt(Encrypt(ks,pw),pw) = ks from open_seal, recorded address = "
-          "index-0 address, address = 0x00||sha3(pk)[:19], sign/verify from verify_sign; no sequence of operations on a "
+          "index-0 address, Decrypt ignores the members of a key file that are not bound to the password and returns the key store "
+          "of the decrypted entropy whose base address (and the address a key file re-encrypted from it records) is the index-0 "
+          "address whatever the file recorded (decrypt_ignores_unauthenticated, decrypt_base_address), address = 0x00||sha3(pk)[:19], sign/verify from verify_sign; no sequence of operations on a "
           "key file object (decrypt with any passwords, unlock/lock, write + read back) changes the key file, so the round "
           "trip holds on every decryption (kfRun_keyfile, kfRun_right_password); tied to the tree by regenerated "
           "constants (regex text, ParseUint bit size, Argon2 parameters and AD string on both sides read from the AST) and "
@@ -342,7 +346,9 @@ TEXT = {
           "KeyFile object is not modified by reading it is the stream's sequence monitor + model comparison (incl. every "
           "password-taking entry point of wallet.Manager in every manager state); the JSON text layer and the persisted file "
           "(Write over a path that already holds another key file or garbage, read back by ReadKeyFile / Manager.Start) are "
-          "covered by the stream only.",
+          "covered by the stream only; that derivation through one KeyStore object is a function of (entropy, index) and not of "
+          "what was derived before is the stream's sequence family over colliding index sets (i, i+128, i+2^k, ...), each result "
+          "compared with the stateless derivation and the Lean model.",
   "technique": "Lean 4 proof (induction/omega/simp) + regenerated facts from AST + differential correspondence with oracle tables",
  },
  "C18": {
